@@ -29,7 +29,10 @@ Inductive obs :=
 | ObsList (code : N) (l : list bytes)
 | ObsSnap (files : list (bytes * N * bytes)) (link : option bytes) (errs : list ecode).
 
-Record sys := { s_flw : option flw; s_w : world }.
+(* s_tl: the thread-local formatting buffer of the logging thread (util::buffer_with).  It is cleared after
+   write_buffer has returned; when write_buffer (or the lock on a poisoned state) panics, what was formatted stays
+   in it and is put out together with the next record *)
+Record sys := { s_flw : option flw; s_w : world; s_tl : bytes }.
 
 Definition code_of {A} (r : res A) : N := match r with Ok _ => 0 | Err => 1 | Panic => 2 end.
 
@@ -66,10 +69,12 @@ Definition step (x : sys) (o : op) : sys * obs :=
     match s_flw x with
     | None => none
     | Some s =>
-      if f_poisoned s then (x, ObsRes 2 false) else
-      let '(r, w1, s1, rot) := write_buffer s w b in
+      let buf := s_tl x ++ b in
+      if f_poisoned s then ({| s_flw := s_flw x; s_w := w; s_tl := buf |}, ObsRes 2 false) else
+      let '(r, w1, s1, rot) := write_buffer s w buf in
       let w2 := match r with Err => report EWrite w1 | _ => w1 end in
-      ({| s_flw := Some s1; s_w := w2 |}, ObsRes (match r with Panic => 2 | _ => 0 end) rot)
+      ({| s_flw := Some s1; s_w := w2; s_tl := match r with Panic => buf | _ => @nil N end |},
+       ObsRes (match r with Panic => 2 | _ => 0 end) rot)
     end
   | OPlain b =>
     match s_flw x with
@@ -77,7 +82,7 @@ Definition step (x : sys) (o : op) : sys * obs :=
     | Some s =>
       if f_poisoned s then (x, ObsRes 1 false) else
       let '(r, w1, s1, rot) := write_buffer s w b in
-      ({| s_flw := Some s1; s_w := w1 |}, ObsRes (code_of r) rot)
+      ({| s_flw := Some s1; s_w := w1; s_tl := s_tl x |}, ObsRes (code_of r) rot)
     end
   | OFlush =>
     match s_flw x with
@@ -85,7 +90,7 @@ Definition step (x : sys) (o : op) : sys * obs :=
     | Some s =>
       if f_poisoned s then (x, ObsRes 0 false) else
       let '(ok, w1, s1) := flush_state s w in
-      ({| s_flw := Some s1; s_w := w1 |}, ObsRes (if ok then 0 else 1) false)
+      ({| s_flw := Some s1; s_w := w1; s_tl := s_tl x |}, ObsRes (if ok then 0 else 1) false)
     end
   | OTrigger =>
     match s_flw x with
@@ -94,7 +99,7 @@ Definition step (x : sys) (o : op) : sys * obs :=
       if f_poisoned s then (x, ObsRes 1 false) else
       let '(r, w1, st1) := mount_next (f_cfg s) w (f_inner s) true in
       let s1 := with_inner s st1 in
-      ({| s_flw := Some (match r with Panic => poison s1 | _ => s1 end); s_w := w1 |}, ObsRes (code_of r) false)
+      ({| s_flw := Some (match r with Panic => poison s1 | _ => s1 end); s_w := w1; s_tl := s_tl x |}, ObsRes (code_of r) false)
     end
   | OReopen =>
     match s_flw x with
@@ -102,7 +107,7 @@ Definition step (x : sys) (o : op) : sys * obs :=
     | Some s =>
       if f_poisoned s then (x, ObsRes 1 false) else
       let '(r, w1, s1) := reopen_state s w in
-      ({| s_flw := Some s1; s_w := w1 |}, ObsRes (code_of r) false)
+      ({| s_flw := Some s1; s_w := w1; s_tl := s_tl x |}, ObsRes (code_of r) false)
     end
   | OReset c =>
     match s_flw x with
@@ -112,14 +117,14 @@ Definition step (x : sys) (o : op) : sys * obs :=
       (* the old State is dropped without shutdown: queued cleanup requests are still worked off, the writer flushes *)
       let w0 := drain_acts s w in
       let w1 := match f_inner s with Active _ wr _ => w_drop w0 wr | Initial => w0 end in
-      ({| s_flw := Some (new_flw c); s_w := w1 |}, ObsRes 0 false)
+      ({| s_flw := Some (new_flw c); s_w := w1; s_tl := s_tl x |}, ObsRes 0 false)
     end
   | OShutdown =>
     match s_flw x with
     | None => none
     | Some s =>
       if f_poisoned s then (x, ObsRes 0 false) else
-      let '(w1, s1) := shutdown_state s w in ({| s_flw := Some s1; s_w := w1 |}, ObsRes 0 false)
+      let '(w1, s1) := shutdown_state s w in ({| s_flw := Some s1; s_w := w1; s_tl := s_tl x |}, ObsRes 0 false)
     end
   | OStop =>
     match s_flw x with
@@ -128,29 +133,29 @@ Definition step (x : sys) (o : op) : sys * obs :=
       (* a poisoned mutex makes shutdown a no-op; dropping the State still drops the writer *)
       let w1 := if f_poisoned s then match f_inner s with Active _ wr _ => w_drop (drain_acts s w) wr | Initial => w end
                 else drop_state s w in
-      ({| s_flw := None; s_w := w1 |}, ObsRes 0 false)
+      ({| s_flw := None; s_w := w1; s_tl := s_tl x |}, ObsRes 0 false)
     end
-  | OStart c => ({| s_flw := Some (new_flw c); s_w := w |}, ObsRes 0 false)
-  | OTick dt => ({| s_flw := s_flw x; s_w := set_now w (wnow w + dt)%Z |}, ObsRes 0 false)
+  | OStart c => ({| s_flw := Some (new_flw c); s_w := w; s_tl := s_tl x |}, ObsRes 0 false)
+  | OTick dt => ({| s_flw := s_flw x; s_w := set_now w (wnow w + dt)%Z; s_tl := s_tl x |}, ObsRes 0 false)
   | OExtRename a b =>
-    ({| s_flw := s_flw x; s_w := set_fs w (match rename (wfs w) a b with Some f => f | None => wfs w end) |}, ObsRes 0 false)
-  | OExtRemove a => ({| s_flw := s_flw x; s_w := set_fs w (unlink (wfs w) a) |}, ObsRes 0 false)
-  | OExtCreate a k d => ({| s_flw := s_flw x; s_w := set_fs w (ext_create (wfs w) a k d (wnow w)) |}, ObsRes 0 false)
-  | OExtMkdir a => ({| s_flw := s_flw x; s_w := set_fs w (ext_mkdir (wfs w) a (wnow w)) |}, ObsRes 0 false)
+    ({| s_flw := s_flw x; s_w := set_fs w (match rename (wfs w) a b with Some f => f | None => wfs w end); s_tl := s_tl x |}, ObsRes 0 false)
+  | OExtRemove a => ({| s_flw := s_flw x; s_w := set_fs w (unlink (wfs w) a); s_tl := s_tl x |}, ObsRes 0 false)
+  | OExtCreate a k d => ({| s_flw := s_flw x; s_w := set_fs w (ext_create (wfs w) a k d (wnow w)); s_tl := s_tl x |}, ObsRes 0 false)
+  | OExtMkdir a => ({| s_flw := s_flw x; s_w := set_fs w (ext_mkdir (wfs w) a (wnow w)); s_tl := s_tl x |}, ObsRes 0 false)
   | OQuery sel =>
     match s_flw x with
     | None => none
     | Some s =>
       if f_poisoned s then (x, ObsList 1 []) else
       match query s w sel with
-      | (Ok l, w1) => ({| s_flw := Some s; s_w := w1 |}, ObsList 0 l)
-      | (Err, w1) => ({| s_flw := Some s; s_w := w1 |}, ObsList 1 [])
-      | (Panic, w1) => ({| s_flw := Some (poison s); s_w := w1 |}, ObsList 2 [])
+      | (Ok l, w1) => ({| s_flw := Some s; s_w := w1; s_tl := s_tl x |}, ObsList 0 l)
+      | (Err, w1) => ({| s_flw := Some s; s_w := w1; s_tl := s_tl x |}, ObsList 1 [])
+      | (Panic, w1) => ({| s_flw := Some (poison s); s_w := w1; s_tl := s_tl x |}, ObsList 2 [])
       end
     end
-  | OSetFaults l => ({| s_flw := s_flw x; s_w := set_faults w l |}, ObsRes 0 false)
-  | OSetKill k => ({| s_flw := s_flw x; s_w := set_kill w (Some k) |}, ObsRes 0 false)
-  | OCrash => ({| s_flw := None; s_w := set_acts (set_kill w None) O |}, ObsRes 0 false)
+  | OSetFaults l => ({| s_flw := s_flw x; s_w := set_faults w l; s_tl := s_tl x |}, ObsRes 0 false)
+  | OSetKill k => ({| s_flw := s_flw x; s_w := set_kill w (Some k); s_tl := s_tl x |}, ObsRes 0 false)
+  | OCrash => ({| s_flw := None; s_w := set_acts (set_kill w None) O; s_tl := [] |}, ObsRes 0 false)
   | OSnap => (x, snapshot w)
   end.
 
@@ -162,4 +167,4 @@ Fixpoint run (x : sys) (ops : list op) : sys * list obs :=
 
 Definition world0 (t0 off : Z) : world :=
   {| wfs := empty_fs; wnow := t0; woff := off; wfaults := []; wkill := None; werrs := []; wlink := None; wacts := O |}.
-Definition sys0 (t0 off : Z) : sys := {| s_flw := None; s_w := world0 t0 off |}.
+Definition sys0 (t0 off : Z) : sys := {| s_flw := None; s_w := world0 t0 off; s_tl := [] |}.
